@@ -260,13 +260,37 @@ def T2(n=2):
     return s
 
 
-def T2c(n=2):
-    """two usage patterns in different countries (each with its own device) sharing one journey and one network"""
+def T2c(n=2, same_names=False):
+    """two usage patterns in different countries (each with its own device) sharing one journey and one network;
+    same_names: the two countries are distinct objects carrying the same name and short name (Countries.FRANCE() called
+    twice, one copy given another electricity mix), like the two devices and the two usage patterns"""
     s = T2(n)
     s["countries"]["de"] = {"tz": "Europe/Berlin"}
     s["devices"]["dev2"] = {}
     s["patterns"]["up2"]["country"] = "de"
     s["patterns"]["up2"]["devices"] = ["dev2"]
+    if same_names:
+        s["countries"]["fr"].update(name="France", short="FRA")
+        s["countries"]["de"].update(name="France", short="FRA")
+        s["devices"]["dev"]["name"] = s["devices"]["dev2"]["name"] = "laptop"
+        s["patterns"]["up"]["name"] = s["patterns"]["up2"]["name"] = "usage in France"
+    return s
+
+
+def TH(n=5, shared_journey=True):
+    """two usage patterns whose UTC series have the same first hour and the same number of hours but not the same
+    hours: Europe/Paris from 2025-10-26 00:00 local crosses the end of summer time (one UTC hour is missing from its
+    index), Africa/Johannesburg has the same offset that night and no time change.  One network, one server/storage."""
+    from datetime import datetime
+    s = T2c(n)
+    s["countries"]["de"] = {"tz": "Africa/Johannesburg"}
+    for po in s["patterns"].values():
+        po["starts"]["start"] = datetime(2025, 10, 26, 0)
+    if not shared_journey:
+        s["jobs"]["job2"] = {"server": "srv"}
+        s["steps"]["step2"] = {"jobs": ["job2"]}
+        s["journeys"]["uj2"] = {"steps": ["step2"]}
+        s["patterns"]["up2"]["journey"] = "uj2"
     return s
 
 
@@ -278,7 +302,7 @@ def T1d(n=2, same_names=False):
     return s
 
 
-def TX(n=2, shared=False):
+def TX(n=2, shared=False, same_names=False):
     """"everything at once": two servers/storages, three jobs (one twice in a step, one in two steps), a step longer than
     an hour, two journeys, a usage pattern with two devices named alike, two countries on one network, a second
     network, a third pattern starting hours later (disjoint windows), a storage that expires data within the period and
@@ -313,6 +337,14 @@ def TX(n=2, shared=False):
                       "net2.bandwidth_energy_intensity": "Wh/MB", "srv2.average_carbon_intensity": "kg/kWh"},
         },
     }
+    if same_names:
+        # names are not identifiers: every object of a class carries the same display name (archetypes instantiated
+        # several times and not renamed), countries also the same short name
+        for coll in ("storages", "servers", "networks", "devices", "countries", "jobs", "steps", "journeys", "patterns"):
+            for o in s[coll].values():
+                o["name"] = f"same {coll}"
+        for o in s["countries"].values():
+            o["short"] = "SAM"
     return s
 
 
@@ -400,7 +432,7 @@ def T9(n=2):
     return s
 
 
-SKELETONS = {"T9": T9, "T2c": T2c, "T1e": T1e, "T1d": T1d, "TX": TX, "T1": T1, "T2": T2, "T3": T3, "T4": T4, "T5": T5, "T7": T7, "T8": T8}
+SKELETONS = {"TH": TH, "T9": T9, "T2c": T2c, "T1e": T1e, "T1d": T1d, "TX": TX, "T1": T1, "T2": T2, "T3": T3, "T4": T4, "T5": T5, "T7": T7, "T8": T8}
 
 
 def spec_copy(spec):
